@@ -424,9 +424,13 @@ def compare(driver, sc: dict, sched_seed: int):
                     # the request raised inside the simulator's step: the step reply never reaches mosaik
                     impl_obs.append(canon_obs(status, [e for e in events if e[0] == "begin" or e[0] == "done"]))
                 elif l.startswith("act setevent"):
-                    ign = [e for e in events if e[0] == "event-ignored"]
+                    # one warning per ignored request: the block's `event-ignored` records are handed out in order
+                    t_req = int(l.split()[3])
+                    ign = [e for e in events if e[0] == "event-ignored"][:1] if t_req >= sc["until"] else []
                     impl_obs.append(canon_obs("running", ign))
-                    events = [e for e in events if e[0] != "event-ignored"]
+                    for e in ign:
+                        events = list(events)
+                        events.remove(e)
                 else:
                     impl_obs.append(None)
             if refused and pre:
@@ -569,8 +573,8 @@ def gen_scenario(rng: random.Random, groups: bool = True, async_req: bool = Fals
             init = True
         c = {"src": s, "seid": seid, "dst": d, "deid": deid, "sattr": sattr, "dattr": dattr, "ts": ts, "weak": weak,
              "init": bool(init), "async": False}
-        if async_req and kind == "plain" and s != d and rng.random() < 0.5:
-            c["async"] = True
+        if async_req and (kind == "plain" or (ts and rng.random() < 0.5)) and s != d and rng.random() < 0.5:
+            c["async"] = True          # also together with a time shift: the async registration then decides the wait, not the shift
         connects.append(c)
     sc = {"sims": sims, "connects": connects, "until": rng.randint(2, 6),
           "max_loop": rng.choice([2, 3, 4, 100]) if use_groups else 100,
@@ -587,6 +591,13 @@ def gen_scenario(rng: random.Random, groups: bool = True, async_req: bool = Fals
         if rng.random() < 0.5:
             sc["extra_async"] = [{"sim": rng.randrange(n), "n": rng.randrange(0, 3), "kind": "set_event",
                                   "time": rng.choice([1, 2, 3, 4, sc["until"], sc["until"] + 2])}]
+            # the same event requested again (in the same or a later step), and an earlier one in between: the repeat must not
+            # give a second step
+            first = sc["extra_async"][0]
+            if rng.random() < 0.5:
+                sc["extra_async"].append(dict(first, n=first["n"] + rng.choice([0, 0, 1])))
+                if rng.random() < 0.5 and first["time"] > 1:
+                    sc["extra_async"].insert(0, dict(first, time=rng.randrange(1, first["time"])))
     if not rt and rng.random() < 0.15:
         sc["debug"] = True          # World(debug=True): scheduler.step is wrapped to record the execution graph; behaviour must not change
     if not rt and rng.random() < 0.2:
@@ -616,6 +627,12 @@ def gen_mas_scenario(rng: random.Random) -> dict:
             if a == 0 or rng.random() < 0.85:
                 connects.append({"src": a, "seid": rng.randrange(2), "dst": b, "deid": rng.randrange(2), "sattr": 2, "dattr": rng.choice([0, 1]),
                                  "ts": 0, "weak": False, "init": False, "async": True})
+    if rng.random() < 0.4:
+        # a time-shifted data connection controller -> agent registered BEFORE the async one: the agent must still wait for the
+        # controller's step of the same time (the async registration replaces the pair's input delay)
+        b = rng.randrange(nc, nc + na)
+        connects.insert(0, {"src": 0, "seid": rng.randrange(2), "dst": b, "deid": rng.randrange(2), "sattr": 2, "dattr": 0, "ts": rng.choice([1, 2]),
+                            "weak": False, "init": True, "async": False})
     if rng.random() < 0.4:
         sims.append({"type": "time-based", "group": [], "init_ev": None})      # a bystander feeding a controller the ordinary way
         connects.append({"src": len(sims) - 1, "seid": 0, "dst": 0, "deid": 1, "sattr": 3, "dattr": 0, "ts": 0, "weak": False, "init": False,
@@ -790,7 +807,7 @@ def gen_diamond_scenario(rng: random.Random) -> dict:
     """Several trigger paths of different total delay between the same two simulators (a direct shifted connection
     and a chain of relays, in either creation order), the source self-scheduling sparsely: the minimal trigger-path
     delay in the ancestor table is what max_advance and the progress bound rest on."""
-    n_relays = rng.choice([1, 1, 2])
+    n_relays = rng.choice([1, 1, 2, 2, 3])
     n = 2 + n_relays
     src, dst = 0, n - 1
     sims = [{"type": rng.choice(["hybrid", "event-based", "time-based"]), "group": [], "init_ev": None}]
@@ -812,6 +829,15 @@ def gen_diamond_scenario(rng: random.Random) -> dict:
     sc = {"sims": sims, "connects": connects, "until": rng.randint(4, 7), "max_loop": 100,
           "lazy": rng.random() < 0.3, "cache": rng.random() < 0.5, "beh_seed": rng.randrange(10 ** 9),
           "sparse_persistent": False, "future_outputs": False}
+    if rng.random() < 0.5:
+        # the simulators are started against the direction of the data flow (destination first): the ancestor table must not
+        # depend on the start order
+        sc["sims"] = sims[::-1]
+        for c in connects:
+            c["src"], c["dst"] = n - 1 - c["src"], n - 1 - c["dst"]
+        dst = 0
+    if rng.random() < 0.5:
+        sc["slow"] = dst          # the destination is mostly in the middle of a step when the triggers arrive
     return normalise(sc)
 
 
@@ -821,12 +847,12 @@ def features(sc: dict, outcome: str) -> list:
     f += ["type:" + s["type"] for s in sc["sims"]]
     for c in sc["connects"]:
         f.append("conn:" + ("weak" if c["weak"] else f"ts{c['ts']}") + (":async" if c.get("async") else ""))
+        if c["src"] == c["dst"]:
+            f.append("conn:self")
     if any(x.get("api") for x in sc["sims"]):
         f.append("legacy-API simulators (adapters)")
     if sc.get("debug"):
         f.append("debug mode")
-        if c["src"] == c["dst"]:
-            f.append("conn:self")
     f.append("lazy" if sc["lazy"] else "eager")
     f.append("cache" if sc["cache"] else "push")
     f.append("outcome:" + " ".join(outcome.split(" ")[:3]))
